@@ -162,7 +162,38 @@ def rule_HF(run: Run) -> RuleResult:
            "is frozen at construction and hidden from keys()/explain(): add(Option('X')) would add the Option object")
     mod, sems = _helper_semantics(run)
     f = mod.relpath
-    n = 0
+    n = n_m = 0
+    # … and as an expression when it is one: the parameter is asked whether it is an Evaluatable (ensure); wrapped without asking
+    # (unit, Value(x)) an Option or dataset given as the operand is a constant — never evaluated, its keys never reported.  A parameter
+    # is asked when a path of the helper tests it (or its elements) for Evaluatable, when it is the default of a parameter of a nested
+    # @pipeline_step function (the decorator lifts — ensures — the defaults), or when it is handed on to such a parameter of another helper
+    import re as _re
+    asked_params = set()
+    for name, (fn, forms, sem) in sems.items():
+        if not isinstance(fn, ast.FunctionDef):
+            continue
+        names = [a.arg for a in fn.args.posonlyargs + fn.args.args + fn.args.kwonlyargs]
+        for a in fn.args.posonlyargs + fn.args.args + fn.args.kwonlyargs + ([fn.args.vararg] if fn.args.vararg else []):
+            tag = f"P{names.index(a.arg)}" if a.arg in names else f"P{len(names)}"
+            if any(_re.match(r"call:isinstance\((?:Child\(\*{1,2}|elem\()?%s(?:\[\*\])?\)?,class<" % tag, c) for c in sem.ensured) or any(
+                    isinstance(g, ast.FunctionDef) and g is not fn and any(ast.unparse(d_).split(".")[-1] == "pipeline_step" for d_ in g.decorator_list)
+                    and any(isinstance(dv, ast.Name) and dv.id == a.arg for dv in g.args.defaults + [x for x in g.args.kw_defaults if x is not None])
+                    for g in ast.walk(fn)):
+                asked_params.add((name, a.arg))
+    grew = True
+    while grew:
+        grew = False
+        for name, (fn, forms, sem) in sems.items():
+            if not isinstance(fn, ast.FunctionDef):
+                continue
+            for c in ast.walk(fn):
+                if isinstance(c, ast.Call) and isinstance(c.func, ast.Name) and c.func.id in sems and isinstance(sems[c.func.id][0], ast.FunctionDef):
+                    cal = sems[c.func.id][0]
+                    cps = [x.arg for x in cal.args.posonlyargs + cal.args.args]
+                    for i, av in enumerate(c.args):
+                        if isinstance(av, ast.Name) and i < len(cps) and (c.func.id, cps[i]) in asked_params and (name, av.id) not in asked_params:
+                            asked_params.add((name, av.id))
+                            grew = True
     for name, (fn, forms, sem) in sems.items():
         if not isinstance(fn, ast.FunctionDef):
             continue
@@ -179,7 +210,17 @@ def rule_HF(run: Run) -> RuleResult:
             ok = passed and not captured
             res.add(f"labrea.functions.{name}:{a.arg} flows into the step as an evaluated argument", ok, f, fn.lineno,
                     "passed to partial()/helper as an argument" if ok else ("captured in a closure" if captured else "never handed to the step"), nec)
+            asked = (name, a.arg) in asked_params
+            if ok and "MaybeEvaluatable" in ann:
+                n_m += 1
+                res.add(f"labrea.functions.{name}:{a.arg} is evaluated when it is an expression (ensure, not a constant wrapper)", asked, f, fn.lineno,
+                        "the step asks whether the operand is an Evaluatable" if asked else
+                        f"no path of {name}() asks whether `{a.arg}` is an Evaluatable: it reaches the step wrapped as a constant, an Option or dataset "
+                        "given as the operand is compared/combined as an object and none of evaluate/validate/keys/explain is issued for it",
+                        "step parameters are evaluated from the same options at evaluation time and reported by keys()/explain() (C13); every operation on "
+                        "an expression that is part of the graph is issued as a request (C18)")
     res.count("parameters", n)
+    res.count("maybe_evaluatable_parameters", n_m)
     if n < 45:
         raise AnalysisError(f"R-HF found only {n} option-valued helper parameters")
     return res
